@@ -17,7 +17,13 @@ THEOREMS = ['Tbox.C20.C20_weekly_earliest', 'Tbox.C20.C20_weekly_empty_mask', 'T
             'Tbox.C20.C20_cparse_nonempty', 'Tbox.C20.C20_cnext_matches', 'Tbox.C20.C20_cdo_next_sound', 'Tbox.C20.C20_cnext_after', 'Tbox.C20.C20_cnext_sound', 'Tbox.C20.C20_cdo_next_forward',
             'Tbox.C20.C20_tv_sec_width', 'Tbox.C20.C20_remain_seconds_width', 'Tbox.C20.C20_local_before_1970_counterexample',
             'Tbox.C20.C20_end_of_range_counterexample', 'Tbox.C20.C20_init_rejects_out_of_range', 'Tbox.C20.C20_week_mask_string',
-            'Tbox.C20.C20_rearm_after_clock_jump']
+            'Tbox.C20.C20_rearm_after_clock_jump',
+            'Tbox.C20.C20_clock_failure_goes_idle', 'Tbox.C20.C20_arm_implies_clock_read',
+            'Tbox.C20.C20_calendar_not_used_after_destruction', 'Tbox.C20.C20_destroy_idle_leaves_calendar_alone',
+            'Tbox.C20.C20_destroy_after_calendar_counterexample', 'Tbox.C20.C20_repeated_calls_change_nothing',
+            'Tbox.C20.C20_refresh_again_same_target',
+            'Tbox.C20.C20_cdo_next_skips_nothing', 'Tbox.C20.C20_cnext_earliest_partial', 'Tbox.C20.C20_cnext_agrees_with_reference',
+            'Tbox.C20.C20_cnext_fuel_counterexample']
 SOURCES = ['modules/alarm/alarm.cpp', 'modules/alarm/weekly_alarm.cpp', 'modules/alarm/oneshot_alarm.cpp',
            'modules/alarm/workday_alarm.cpp', 'modules/alarm/workday_calendar.cpp', 'modules/alarm/cron_alarm.cpp',
            'modules/alarm/3rd-party/ccronexpr.cpp'] + vlib.EVENT_SOURCES + vlib.BASE_SOURCES
@@ -37,14 +43,18 @@ TRUSTED = ['model lean/TboxModel/C20/Model.lean hand-written from modules/alarm/
            'cron alarm: the third-party evaluator ccronexpr (modules/alarm/3rd-party) is TRANSCRIBED in lean/TboxModel/C20/CCron.lean: cron_parse_expr on the raw bytes '
            '(split_str, strtol base 0, to_upper, replace_ordinals, get_range, set_number_hits, month rotation, Sunday 7 -> 0, ? -> *) and cron_next / do_next / find_next / '
            'find_next_day with the resets list, the recursion and the year horizon over struct tm + timegm (CCal.lean; ccronexpr is built without CRON_USE_LOCAL_TIME: timegm / gmtime_r, '
-           'UTC, no TZ database - it only ever sees the alarm\'s local second count = UTC + explicit offset).  Proved: accepted => non-empty field sets; result matches every field '
-           'and is > t.  Tie on every run: acceptance and next instants as P lines, the six bit sets as M lines (op cx: raw strings incl. names, ?, hex/octal, inner white space, '
+           'UTC, no TZ database - it only ever sees the alarm\'s local second count = UTC + explicit offset).  Proved: accepted => non-empty field sets; result matches every field, '
+           'is > t and is the EARLIEST such instant (do_next skips no matching instant).  Tie on every run: acceptance and next instants as P lines, the six bit sets as M lines (op cx: raw strings incl. names, ?, hex/octal, inner white space, '
            'every start alignment 0..7 in an exact-size heap block).  The driver ALSO compares the transcription with the independently proved-earliest reference '
            'lean/TboxModel/C20/Cron.lean on every cron case (bit sets and next instant); a disagreement is reported as a broken correspondence (reject M).  Not carried: '
            'malloc failure paths, timegm returning -1, cron_prev (never called).  L / W / # are not in this version of ccronexpr (rejected by both sides)',
            'proleptic Gregorian calendar: civil_from_days / days_from_civil (H. Hinnant) with dfc (civil x) = x, civil (dfc y m 1) = (y, m, 1), month-start monotonicity proved in CalLaws.lean; '
            'glibc timegm / gmtime_r are tied to them through every cron P line',
-           'which of several due timers the loop serves first is taken from the implementation trace (trace acceptor, as C02)']
+           'which of several due timers the loop serves first is taken from the implementation trace (trace acceptor, as C02)',
+           'gettimeofday(): the harness wraps the virtual-clock gettimeofday of harness/vtime.h (compiled under another name) and fails it with EFAULT while the op file says so '
+           '(op gtod 0|1, callback acts gt0/gt1); the model takes the answer as the oracle Env.gtod / World.gtod of every step',
+           'the WorkdayCalendar is a heap object of the harness (op caldel frees it): ASan reports any later access through wp_calendar_; the model carries calAlive and the ghost flag uaf; '
+           'ops that would make the USER break the contract (caldel while a workday alarm is enabled, enable() of an initialised workday alarm / calendar updates after caldel) are bad-op on both sides']
 ASSUMPTIONS = ['weekly / one-shot / workday arming theorems: the local computation stays below 2^32 (t + 9 d <= 2^32 weekly, t + 368 d workday, `InRange` for arming) - beyond it the uint32 sums of '
                'the code wrap; the model wraps identically (checked by correspondence, families gen_width 0-1 and pick_t) and C20_end_of_range_counterexample states what then happens '
                '(weekly/workday: "no instant", enable() fails; one-shot: wrapped target, delay still the true distance)',
@@ -53,10 +63,14 @@ ASSUMPTIONS = ['weekly / one-shot / workday arming theorems: the local computati
                'tv_sec is stored into a uint32_t: exact until 2106-02-07 06:28:15, no effect at 2^31 (C20_tv_sec_width); setTimezone(minutes) with |minutes| > 35791394 overflows int (undefined behaviour) and is not exercised',
                'DST is out of scope: the alarm works with one explicit offset (setTimezone) or the system offset sampled at arming (GetSystemTimezoneOffsetSeconds; harness pins TZ=VRF-3); '
                'ccronexpr is compiled for UTC (timegm/gmtime_r)',
-               'an alarm is not destroyed from inside its own callback (the code asserts against it); a WorkdayCalendar outlives every WorkdayAlarm initialised with it '
-               '(raw non-owning pointer wp_calendar_; the destructor unsubscribes through it)',
-               'cron: beyond ccronexpr\'s year horizon (CRON_MAX_YEARS_DIFF) "no instant" is the specified answer of both sides; minimality of the transcribed search is not a theorem '
-               '(it is of the reference, and the two are compared on every case)']
+               'an alarm is not destroyed from inside its own callback (the code asserts against it); a WorkdayCalendar outlives every WorkdayAlarm that is ENABLED with it '
+               '(raw non-owning pointer wp_calendar_): it is destroyed only while no workday alarm is enabled and no workday alarm is enabled afterwards (wValid); alarms that are not enabled '
+               'may outlive it and be destroyed after it (C20_calendar_not_used_after_destruction, with patches/C20-11)',
+               'gettimeofday() failure leaves an enabled alarm idle at its next refresh()/expiry (it is not re-armed by itself when the clock works again): what the code does, stated by '
+               'C20_clock_failure_goes_idle; outside the property statement',
+               'cron: beyond ccronexpr\'s year horizon (CRON_MAX_YEARS_DIFF) "no instant" is the specified answer of both sides; the transcribed cron_next is proved to return the EARLIEST '
+               'match whenever it returns an instant (C20_cnext_earliest_partial) and never an instant different from the reference\'s (C20_cnext_agrees_with_reference); that it DOES return one '
+               'whenever the reference does (exact year horizon, sufficiency of the model\'s recursion fuel) is compared on every case, not a theorem']
 RULE = ('(1) pure: calculateNextLocalTimeSec of weekly/oneshot/workday probes on generated (seconds-of-day, mask, calendar, t) with t at day/week '
         'boundaries +-2 s over the whole uint32 range; (2) histories of up to 4 alarms on the real loop: new/init/tz/enable/disable/refresh/cleanup, '
         'calendar updates, destruction, callback scripts (refresh/disable/enable/cleanup/initialize/setTimezone of any alarm incl. the own one, destroy another alarm '
@@ -64,6 +78,7 @@ RULE = ('(1) pure: calculateNextLocalTimeSec of weekly/oneshot/workday probes on
         'directed boundary families (wall step between arming and firing, the second after a fire, day/week wrap at 00:00:00 / 23:59:59, zones +-12h/+14h/half hours, all-days-off calendar, empty week mask), '
         'clock advances landing at target-1ms/target/target+1ms, monotonic-ahead skew, wall-clock jumps, distances up to > 1 year; (3) cron_next of the '
         'third-party evaluator against the reference on generated expressions (lists/ranges/steps/*) with t at month/year/leap boundaries; (4) op cx: raw expression strings (names in any case, ?, hex/octal/signed numbers, white space, field-count and 256-character limits, rejected items) through the real cron_parse_expr at every start alignment, bit sets compared as M lines; (5) width families: tv_sec at 2^31 / 2^32, local time before 1970, zone offsets up to the int limit, seconds_of_day at the int limits; '
+        '(6) state-derived follow-ups on one armed object: the same specification / zone / calendar / enable / refresh again, refresh at the armed instant, backward jump onto the served instant; (7) fault schedules: gettimeofday failing during enable / refresh / expiry / calendar update (also switched from inside callbacks), and the calendar destroyed before alarms that are not enabled (never enabled, disabled, failed enable, idle after a failed re-arm); '
         'non-trivial = a callback fired (on time, early or late), or an arm farther than 2^32 ms, or a scan that went past today; distinct = distinct op text')
 
 D = 86400
@@ -602,13 +617,124 @@ def gen_width(rng):
     return ops
 
 
+def gen_state_derived(rng):
+    """lesson (g): follow-up inputs EQUAL TO the cached state of ONE armed object - the same specification again (rejected while armed,
+    accepted while idle), setTimezone to the same offset, a calendar update that changes nothing, enable() twice, refresh at the exact
+    armed instant / one ms before / after, a backward wall-clock jump onto or before the instant just served followed by refresh,
+    disable+enable or a re-initialisation with the same values (the next target must not be the served one)"""
+    kind = rng.choice(['wk', 'wd', 'os', 'cr'])
+    tzm = rng.choice([0, 0, 480, -300, 345])
+    day = rng.randrange(10, 47000)
+    sod = rng.choice([0, 1, D - 1, 43200, rng.randrange(D)])
+    a = {'kind': kind, 'sod': sod, 'mask': rng.choice([127, 127, 1 << ((day + 4) % 7), rng.randrange(1, 128)]), 'wd': True, 'tz': tzm}
+    T = day * D + sod - tzm * 60                  # UTC instant of local `sod` on `day`
+    lead = rng.choice([1, 2, 60, 3600])
+    ms = rng.choice([0, 1, 999])
+    same = [init_line(0, a), 'tz 0 %d' % tzm, 'en 0', 'rf 0', 'calmask 127', 'calsp -', 'cb 0']
+    ops = (['calmask 127'] if kind == 'wd' else []) + ['new 0 %s%s' % (kind, rng.choice(['', '', ' rf0', ' en0', ' tz0:%d' % tzm, ' in0:%d:%s:1' % (sod, mask_text(a['mask']) if kind == 'wk' else '-')])),
+           'tz 0 %d' % tzm, init_line(0, a), init_line(0, a), 'wall %d' % max(0, (T - lead) * 1000 + ms), 'en 0']
+    for _ in range(rng.choice([1, 2, 4])):
+        ops.append(rng.choice(same))
+    fam = rng.randrange(5)
+    to_fire = lead * 1000 - ms
+    if fam == 4:      # re-initialise ONE object with exactly one piece of its cached specification changed (the rest equal): nothing may be skipped
+        b = dict(a)
+        which = rng.choice(['sod', 'sod', 'mask', 'wd'])
+        if which == 'sod': b['sod'] = (sod + rng.choice([1, 60, 3600, D - 1, 43200])) % D
+        elif which == 'mask': b['mask'] = a['mask'] ^ (1 << rng.randrange(7)) or 1
+        else: b['wd'] = not a['wd']
+        if kind == 'wd': ops.insert(0, 'calmask %d' % rng.choice([62, 65, 31]))          # mixed calendar: the workday flag matters
+        mid = rng.choice([[], ['adv %d' % to_fire], ['adv %d' % (to_fire // 2)]])
+        ops += mid + ['dis 0', init_line(0, b), 'en 0', 'dis 0', init_line(0, a), 'en 0', rng.choice(['dis 0', 'cl 0']), init_line(0, b), 'tz 0 %d' % tzm, 'en 0',
+                      'adv %d' % (D * 1000), 'adv %d' % (D * 1000)]
+    elif fam == 0:    # refresh exactly at / around the armed instant, then the same calls again
+        ops += ['adv %d' % max(0, to_fire - 1), 'rf 0', 'adv 1', 'rf 0', 'rf 0', 'adv 1', 'rf 0', 'en 0', init_line(0, a)]
+    elif fam == 1:    # served, then the wall clock jumps back onto / before the served instant (+0 s): the same target must not come again
+        back = rng.choice([0, 1, 999, 1000, lead * 1000, 3600000, 86400000])
+        ops += ['adv %d' % to_fire, 'wall %d' % max(0, T * 1000 - back), rng.choice(['rf 0', 'dis 0', 'adv 0', 'en 0']), 'en 0', 'adv %d' % min(back, 1000), 'adv 1000',
+                'dis 0', init_line(0, a), 'tz 0 %d' % tzm, 'en 0', 'adv %d' % (back + 1000), 'adv %d' % (D * 1000)]
+    elif fam == 2:    # early wake-up (monotonic ahead), then everything unchanged is applied again inside the served second
+        k = rng.choice([1, 5, 20])
+        ops += ['mono %d' % k, 'adv %d' % max(0, to_fire - k)] + [rng.choice(same) for _ in range(3)] + ['dis 0', init_line(0, a), 'en 0', 'adv %d' % k, 'adv 1000', 'adv %d' % (D * 1000)]
+    else:             # idle object: same specification twice, same zone twice, cleanup twice, then armed again
+        ops += ['dis 0', 'dis 0', init_line(0, a), init_line(0, a), 'tz 0 %d' % tzm, 'cl 0', 'cl 0', init_line(0, a), 'tz 0 %d' % tzm, 'tz 0 %d' % tzm, 'en 0', 'en 0', 'adv %d' % to_fire, 'adv %d' % (D * 1000)]
+    ops += ['adv %d' % (D * 1000)]
+    return ops
+
+
+def gen_faults(rng):
+    """gettimeofday() failure at chosen points (op `gtod 0|1`, callback acts gt0 / gt1): enable / refresh / expiry / calendar update /
+    remainSeconds while the clock cannot be read, recovery afterwards; and the life time of the WorkdayCalendar object: alarms that are
+    not enabled (never enabled, disabled, failed enable, idle after a failed re-arm) outlive the calendar (op `caldel`), are re-initialised
+    (rejected: no calendar), cleaned up and destroyed after it"""
+    fam = rng.randrange(4)
+    day = rng.randrange(10, 47000)
+    sod = rng.choice([0, 1, D - 1, rng.randrange(D)])
+    T = day * D + sod
+    lead = rng.choice([1, 60, 3600])
+    if fam == 3:      # a calendar update inside which some subscribers go idle (and unsubscribe) while the others must still be refreshed
+        n = rng.choice([2, 3, 4])
+        wds = [rng.random() < 0.5 for _ in range(n)]
+        if all(wds) or not any(wds): wds[rng.randrange(n)] = not wds[0]
+        ops = ['calmask 62', 'wall %d' % ((day * D + rng.randrange(D)) * 1000)]
+        for i in range(n):
+            ops += ['new %d wd' % i, 'tz %d 0' % i, 'init %d %d - %d' % (i, rng.choice([sod, rng.randrange(D)]), 1 if wds[i] else 0)]
+        for i in rng.sample(range(n), n): ops += ['en %d' % i]
+        for _ in range(rng.choice([1, 2, 3])):
+            ops += [rng.choice(['calmask 0', 'calmask 127', 'calmask 62', 'calmask 65', 'calsp %d:%d' % (day + rng.randrange(3), rng.randrange(2))])]
+            if rng.random() < 0.5: ops += ['adv %d' % rng.choice([1000, D * 1000])]
+        for i in range(n): ops += ['en %d' % i]
+        ops += ['calmask 62', 'adv %d' % (D * 1000), 'adv %d' % (3 * D * 1000)]
+        return ops
+    if fam == 0:
+        kinds = [rng.choice(['wk', 'wd', 'os', 'cr']) for _ in range(rng.choice([1, 2, 3]))]
+        ops = ['calmask 127']
+        for i, k in enumerate(kinds):
+            sc = rng.choice(['', '', ' gt0,rf%d,gt1' % i, ' gt0', ' gt0,en%d,gt1,en%d' % (i, i), ' gt0,dis%d,en%d,gt1' % (i, i), ' gt0,cm62,gt1'])
+            ops += ['new %d %s%s' % (i, k, sc), 'tz %d 0' % i, init_line(i, {'kind': k, 'sod': sod, 'mask': 127, 'wd': True})]
+        ops += ['wall %d' % ((T - lead) * 1000)]
+        for i in range(len(kinds)):
+            ops += rng.choice([['en %d' % i], ['gtod 0', 'en %d' % i, 'gtod 1', 'en %d' % i], ['en %d' % i, 'gtod 0', 'rf %d' % i, 'gtod 1', 'en %d' % i]])
+        ops += rng.choice([['gtod 0', 'adv %d' % (lead * 1000), 'gtod 1'], ['adv %d' % (lead * 1000 - 1), 'gtod 0', 'adv 1', 'adv 1000', 'gtod 1'], ['adv %d' % (lead * 1000)],
+                           ['gtod 0', 'calmask 62', 'calsp -', 'gtod 1', 'calmask 127']])
+        for i in range(len(kinds)):
+            ops += ['en %d' % i]
+        ops += ['adv %d' % (D * 1000), 'gtod %d' % rng.randrange(2), 'adv %d' % (D * 1000), 'gtod 1', 'adv %d' % (D * 1000)]
+    elif fam == 1:
+        n = rng.choice([1, 2, 3])
+        ops = ['wall %d' % ((T - lead) * 1000)]
+        how = []
+        for i in range(n):
+            h = rng.choice(['never', 'disabled', 'failed', 'idle-after-refresh', 'oneshot-done', 'uninit', 'cleaned'])
+            how.append(h)
+            ops += ['new %d wd%s' % (i, rng.choice(['', '', ' dis%d' % i])), 'tz %d 0' % i]
+            if h != 'uninit': ops += ['init %d %d - 1' % (i, sod)]
+        ops += ['calmask 127']
+        for i, h in enumerate(how):
+            if h == 'disabled': ops += ['en %d' % i, rng.choice(['dis %d' % i, 'cl %d' % i])]
+            elif h == 'cleaned': ops += ['en %d' % i, 'cl %d' % i, 'init %d %d - 1' % (i, sod)]
+        for i, h in enumerate(how):
+            if h == 'failed': ops += ['calmask 0', 'en %d' % i, 'calmask 127']
+            elif h == 'idle-after-refresh': ops += ['en %d' % i, 'calmask 0', 'calmask 127']
+        if rng.random() < 0.3: ops += ['new 3 wk', 'init 3 %d 1111111 1' % sod, 'tz 3 0', 'en 3']
+        ops += ['caldel', 'caldel', 'calmask 62']
+        for i in rng.sample(range(n), n):
+            ops += rng.choice([['del %d' % i], ['init %d %d - 1' % (i, sod), 'en %d' % i, 'del %d' % i], ['cl %d' % i, 'en %d' % i, 'rf %d' % i, 'dis %d' % i, 'del %d' % i], ['tz %d 60' % i, 'rf %d' % i]])
+        ops += ['adv %d' % (lead * 1000), 'adv %d' % (D * 1000)]
+    else:             # caldel refused while a workday alarm is enabled (bad-op on both sides), accepted once it went idle by itself
+        ops = ['calmask 127', 'new 0 wd', 'tz 0 0', 'init 0 %d - 1' % sod, 'wall %d' % ((T - lead) * 1000), 'en 0', 'caldel',
+               rng.choice(['calmask 0', 'dis 0', 'cl 0', 'gtod 0', 'adv %d' % (lead * 1000)])]
+        ops += ['rf 0', 'caldel', 'gtod 1', 'en 0', 'del 0', 'new 0 wd', 'init 0 1 - 1', 'en 0']
+    return ops
+
+
 def gen(rng, tier):
     n = 250 if tier == 'quick' else 4000
     # malformed stream: both sides must answer bad-op
     yield ['wk 1 1111111', 'wk x 1111111 5', 'wk 1 1111112 5', 'wk 1 1111111 4294967296', 'os 1', 'wd 1 2 62 - 5', 'wd 1 1 256 - 5',
            'wd 1 1 62 5:2 5', 'wd 1 1 62 5:1, 5', 'new 4 wk', 'new 0 cron', 'en 0', 'new 0 wk', 'new 0 wk', 'init 0 1 1111111', 'init 0 abc 1111111 1',
            'tz 0 1441', 'tz 0 -1441', 'tz 0 05', 'adv 007', 'new 1 wk cl9', 'new 1 wk tz0', 'new 1 wk tz0:1441', 'new 1 wk in0:5:1111111', 'new 1 wk in0:5:2:1', 'new 1 cron', 'initc 0 * * * * *', 'initc 9 * * * * * *', 'initc 0 * * * * * MON', 'new 1 wk del1', 'new 1 wk rf9', 'new 1 wk rf0,,rf0', 'new 1 wk cs5:1+', 'cron * * * * *  5',
-           'cron * * * * * * x', 'cron 08 * * * * * 5', 'cron 1-2-3 * * * * * 5', 'cron 1//2 * * * * * 5', 'cron */x * * * * * 5', 'cron , * * * * * 5', 'cron MON * * * * * 5', 'cx 8 2a 5', 'cx 0 2 5', 'cx 0 00 5', 'cx 0 80 5', 'cx 0 zz 5', 'cx 0 - 5', 'cx 0 2a 4294967296', 'initx 0 zz', 'initx 9 2a', 'new 1 cr ic0', 'new 1 cr ic0:zz', 'new 1 cr ic9:2a', 'tz 0 35791395', 'tz 0 -35791395', 'init 0 2147483648 1111111 1', 'init 0 -2147483649 1111111 1', 'del 2', 'adv -1', 'adv 40000000001', 'wall 4294967296000', 'calmask 256', 'calsp 5', 'frob', 'dis 3', 'rf 2', 'cb 1']
+           'cron * * * * * * x', 'cron 08 * * * * * 5', 'cron 1-2-3 * * * * * 5', 'cron 1//2 * * * * * 5', 'cron */x * * * * * 5', 'cron , * * * * * 5', 'cron MON * * * * * 5', 'cx 8 2a 5', 'cx 0 2 5', 'cx 0 00 5', 'cx 0 80 5', 'cx 0 zz 5', 'cx 0 - 5', 'cx 0 2a 4294967296', 'initx 0 zz', 'initx 9 2a', 'new 1 cr ic0', 'new 1 cr ic0:zz', 'new 1 cr ic9:2a', 'tz 0 35791395', 'tz 0 -35791395', 'init 0 2147483648 1111111 1', 'init 0 -2147483649 1111111 1', 'del 2', 'adv -1', 'adv 40000000001', 'wall 4294967296000', 'calmask 256', 'calsp 5', 'frob', 'dis 3', 'rf 2', 'cb 1', 'gtod 2', 'gtod', 'caldel 1', 'new 1 wk gt2', 'new 1 wk gt']
     # directed
     yield ['wk 36000 1111111 1700000000', 'wk 0 0000000 1700000000', 'wk 86399 0000100 1699999999', 'os 0 86399', 'os 0 86400',
            'wd 30600 1 62 - 1700000000', 'wd 30600 1 0 - 1700000000', 'wd 0 1 0 20042:1 1700000000', 'wd 0 1 0 20043:1 1700000000']
@@ -647,11 +773,15 @@ def gen(rng, tier):
         yield gen_cx(rng)
     for _ in range(n // 3):
         yield gen_width(rng)
+    for _ in range(n // 2):
+        yield gen_state_derived(rng)
+    for _ in range(n // 2):
+        yield gen_faults(rng)
 
 
 def nontrivial(ops, model_lines):
     tags = ' '.join(l for l in model_lines if l.startswith('B '))
-    keys = ('cx-next', 'cx-none', 'initx-ok', 'cron-none-year-horizon', 'cron-4-years', 'cron-years', 'cron-enable', 'fire-', 'arm-far', 'rearm-far', 'wk-week', 'wd-week', 'wd-far', 'wd-weeks', 'os-week', 'cron-month', 'cron-year', 'cron-day', 'destroy-subscribed', 'script-run')
+    keys = ('clock-failure', 'calendar-destroyed', 'same-again', 'refresh-same-target', 'cx-next', 'cx-none', 'initx-ok', 'cron-none-year-horizon', 'cron-4-years', 'cron-years', 'cron-enable', 'fire-', 'arm-far', 'rearm-far', 'wk-week', 'wd-week', 'wd-far', 'wd-weeks', 'os-week', 'cron-month', 'cron-year', 'cron-day', 'destroy-subscribed', 'script-run')
     return 1 if any(k in tags for k in keys) else None
 
 
@@ -667,12 +797,12 @@ LEVEL_TEXT = ('Lean 4 theorems over a model of the alarm module: the next-instan
               'conversion of the unpatched tree is refuted by a concrete witness); targets strictly increase across re-arms even on early wake-ups and wall-clock jumps; '
               'one-shot fires once per enable; a disabled alarm has no armed timer; once per instant over every scripted world execution.  Cron: ccronexpr itself is '
               'transcribed (parser on raw bytes + cron_next search over struct tm/timegm) and proved sound - every accepted expression has non-empty field sets, every '
-              'returned instant is > t and matches all six fields - next to a reference proved to return the EARLIEST match (with the year horizon).  Tied to the real code on every run by '
+              'returned instant is > t, matches all six fields and is the EARLIEST such instant (do_next skips nothing) - next to a reference proved to return the EARLIEST match (with the year horizon).  Tied to the real code on every run by '
               'differential execution (probe subclasses + real alarms on the real loop under virtual wall/monotonic clocks, direct cron_parse_expr calls, ASan+UBSan)')
 LEVEL_NOTE = ('trusted: Lean kernel, hand-written model + trace-acceptor tie (coverage bounded by the generator, measured), C02 timer semantics, clock '
-              'interposition, glibc timegm/gmtime_r = the proved proleptic Gregorian functions (compared on every cron case); PARTIAL: minimality of the transcribed ccronexpr search '
-              'is proved for the reference only (transcription = reference is checked on every case, not a theorem; fuel sufficiency open); the weekly/one-shot/workday theorems '
+              'interposition, glibc timegm/gmtime_r = the proved proleptic Gregorian functions (compared on every cron case); PARTIAL: the transcribed ccronexpr search '
+              'is proved minimal GIVEN that it answers; that it answers whenever the reference does (year horizon exact, fuel sufficient) is checked on every case, not a theorem; the weekly/one-shot/workday theorems '
               'exclude local computations that wrap 2^32 (last 9 / 368 days before 2106-02-07) and local times before 1970 - both now with counterexample theorems saying exactly '
-              'what the code does there; gettimeofday failure is not injected')
+              'what the code does there')
 TECHNIQUE = 'Lean 4 proofs (earliest-instant characterisation, arming arithmetic, state-machine invariants) + model/implementation correspondence check'
 DESIGN_REF = 'DESIGN.md §6 C20, §7 row 16'
